@@ -55,6 +55,13 @@ def statusName (b : Nat) : String :=
 /-- `binary.LittleEndian.PutUint32(l, uint32(n))` (the conversion truncates; so does `le 4`). -/
 def u32 (n : Nat) : Bytes := le 4 n
 
+/-- V2: `PutUint64(GasUsed)` and one byte 1/0 for `FeeDelegation`; nothing in the old format. -/
+def gasBytes (v2 : Bool) (gas : Nat) (fd : Bool) : Bytes :=
+  if v2 then le 8 gas ++ [if fd then 1 else 0] else []
+
+/-- `if len(r.Bloom) == 0 { 0 } else { 1, Bloom }` -/
+def bloomBytes (bloom : Bytes) : Bytes := if bloom.isEmpty then [0] else 1 :: bloom
+
 def marshalBody (v2 isMerkle : Bool) (r : Receipt) : Option Bytes :=
   match statusCode r.status with
   | none => none
@@ -62,8 +69,8 @@ def marshalBody (v2 isMerkle : Bool) (r : Receipt) : Option Bytes :=
     some (r.addr ++ ([UInt8.ofNat st]
       ++ ((if !isMerkle || st != 2 then u32 r.ret.length ++ r.ret else [])
       ++ (r.txHash ++ (u32 r.fee.length ++ (r.fee ++ (u32 r.cum.length ++ (r.cum
-      ++ ((if v2 then le 8 r.gas ++ [if r.feeDeleg then 1 else 0] else [])
-      ++ ((if r.bloom.isEmpty then [0] else 1 :: r.bloom)
+      ++ (gasBytes v2 r.gas r.feeDeleg
+      ++ (bloomBytes r.bloom
       ++ u32 r.events.length))))))))))
 
 /-- `Event.marshalCommonBinary` = `Event.MarshalMerkleBinary`. -/
@@ -97,6 +104,19 @@ def readLE (w : Nat) (d : Bytes) : Option (Nat × Bytes) :=
   | some (b, rest) => some (fromLE b, rest)
   | none => none
 
+/-- V2 only: `GasUsed` (8 bytes) and the fee-delegation byte; the old format has neither (fields stay zero). -/
+def readGas (v2 : Bool) (d : Bytes) : Option ((Nat × Nat) × Bytes) :=
+  if v2 then do
+    let (g, d) ← readLE 8 d
+    let (f, d) ← readLE 1 d
+    pure ((g, f), d)
+  else some ((0, 0), d)
+
+/-- `bloomCheck := data[pos]; if bloomCheck == 1 { r.Bloom = data[pos : pos+BloomBitByte] }` -/
+def readBloom (d : Bytes) : Option (Bytes × Bytes) := do
+  let (bc, d) ← readLE 1 d
+  if bc = 1 then takeN 256 d else some ([], d)
+
 /-- `unmarshalBody` (v2 = false) / `unmarshalBodyV2`: fields, remaining bytes, event count. -/
 def unmarshalBody (v2 : Bool) (d : Bytes) : Option (Receipt × Bytes × Nat) := do
   let (addr, d) ← takeN 33 d
@@ -108,14 +128,12 @@ def unmarshalBody (v2 : Bool) (d : Bytes) : Option (Receipt × Bytes × Nat) := 
   let (fee, d) ← takeN l d
   let (l, d) ← readLE 4 d          -- `l` keeps the length of CumulativeFeeUsed from here on
   let (cum, d) ← takeN l d
-  let (gas, d) ← if v2 then readLE 8 d else some (0, d)
-  let (fd, d) ← if v2 then readLE 1 d else some (0, d)
-  let (bc, d) ← readLE 1 d
-  let (bloom, d) ← if bc = 1 then takeN 256 d else some ([], d)
+  let (gf, d) ← readGas v2 d
+  let (bloom, d) ← readBloom d
   let (_, d) ← takeN l d           -- the stray `pos += l` (receipt.go:198 / 240)
   let (n, d) ← readLE 4 d
   pure ({ addr := addr, status := statusName st, ret := ret, txHash := tx, fee := fee, cum := cum,
-          gas := gas, feeDeleg := fd = 1, bloom := bloom, events := [] }, d, n)
+          gas := gf.1, feeDeleg := gf.2 = 1, bloom := bloom, events := [] }, d, n)
 
 /-- `Event.unmarshalStoreBinary(data, r)` -/
 def Event.unstore (raddr : Bytes) (d : Bytes) : Option (Event × Bytes) := do
